@@ -211,4 +211,115 @@ example : Inv1 (fun a b : Nat => decide (a < b)) 3 [1, 3, 5] ∧
     Spec.contains (fun a b : Nat => decide (a < b)) [1, 3, 5] 4 = false :=
   ⟨⟨by unfold Sorted; decide, by decide⟩, by decide⟩
 
+/-! ## erase -/
+
+/-- static_set::erase(key) = spec (`filter` + count) -/
+theorem ssEraseKey_eq (hst : StrictTotal lt) {l : List α} (hs : Sorted lt l) (k : α) :
+    ssEraseKey lt l k = .ok (Spec.eraseKey lt l k) := by
+  obtain ⟨A, B, hl, hr, hsl, hA, hA', hB, hcase⟩ := probe hst hs k
+  unfold ssEraseKey Spec.eraseKey
+  rcases hcase with ⟨B', hB2, hB', he, _⟩ | ⟨hB', he, _⟩
+  · subst hB2; subst hl
+    obtain ⟨_, f1, f2, _⟩ := spec_present hst hA hB'
+    have her : ssEraseAt (A ++ k :: B') A.length = .ok (A ++ B', A.length) := by
+      unfold ssEraseAt
+      rw [if_neg (by simp), svErase_eq _ _ _ (by omega) (by simp)]
+      simp
+    simp [hr, he, her, f1, f2]
+  · subst hl
+    obtain ⟨_, _, _, f1, f2⟩ := spec_absent hA hA' hB hB'
+    simp [hr, he, f1, f2]
+
+theorem equiv_iff_eq [DecidableEq α] (hst : StrictTotal lt) (k x : α) :
+    Spec.equiv lt k x = decide (x = k) := by
+  by_cases h : x = k
+  · subst h; simp [Spec.equiv, hst.irrefl]
+  · simp only [h, decide_false]
+    cases h1 : lt x k with
+    | true => simp [Spec.equiv, h1]
+    | false =>
+      cases h2 : lt k x with
+      | true => simp [Spec.equiv, h2]
+      | false => exact absurd (hst.total x k h1 h2) h
+
+theorem countP_add_not (q : α → Bool) (l : List α) :
+    l.countP q + (l.filter (fun x => !q x)).length = l.length := by
+  induction l with
+  | nil => rfl
+  | cons x xs ih => cases h : q x <;> simp [h, List.countP_cons, List.filter_cons] <;> omega
+
+/-- what `remove` + `erase(it, end())` leaves and counts, in spec terms -/
+theorem remove_erase_spec [DecidableEq α] (hst : StrictTotal lt) (l : List α) (k : α) :
+    ∃ l1, removeIf l (fun x => decide (x = k)) = .ok (l1, (Spec.eraseKey lt l k).1.length) ∧
+      l1.take (Spec.eraseKey lt l k).1.length ++ l1.drop l1.length = (Spec.eraseKey lt l k).1 ∧
+      (Spec.eraseKey lt l k).1.length ≤ l1.length ∧
+      l1.length - (Spec.eraseKey lt l k).1.length = (Spec.eraseKey lt l k).2 := by
+  have hq : (fun x => !Spec.equiv lt k x) = (fun x => !(fun x => decide (x = k)) x) := by
+    funext x; rw [equiv_iff_eq hst]
+  have hq2 : Spec.equiv lt k = (fun x => decide (x = k)) := by funext x; rw [equiv_iff_eq hst]
+  obtain ⟨l1, h1, h2, h3⟩ := removeIf_spec (fun x => decide (x = k)) l
+  refine ⟨l1, ?_, ?_, ?_, ?_⟩
+  · simp only [Spec.eraseKey, hq]; exact h1
+  · simp only [Spec.eraseKey, hq]; rw [h2]; simp
+  · simp only [Spec.eraseKey, hq]; rw [h3]; exact List.length_filter_le _ _
+  · simp only [Spec.eraseKey, hq, hq2, h3]
+    have := countP_add_not (fun x => decide (x = k)) l
+    omega
+
+/-- flat_set::erase(key) (`remove` + `erase(it,end)`) = spec -/
+theorem fsEraseKey_eq [DecidableEq α] (hst : StrictTotal lt) (l : List α) (k : α) :
+    fsEraseKey l k = .ok (Spec.eraseKey lt l k) := by
+  obtain ⟨l1, h1, h2, h3, h4⟩ := remove_erase_spec hst l k
+  unfold fsEraseKey
+  simp only [h1, ok_bind]
+  rw [svErase_eq _ _ _ h3 (Nat.le_refl _)]
+  simp only [ok_bind, h2, h4]
+
+/-- erase(pos) and erase(first,last) on a valid position / range = spec -/
+theorem ssEraseRange_eq (l : List α) (f la : Nat) (h1 : f ≤ la) (h2 : la ≤ l.length) :
+    ssEraseRange l f la = .ok (Spec.eraseRange l f la) := svErase_eq l f la h1 h2
+
+theorem ssEraseAt_eq (l : List α) (pos : Nat) (h : pos < l.length) :
+    ssEraseAt l pos = .ok (Spec.eraseRange l pos (pos + 1)) := by
+  unfold ssEraseAt
+  rw [if_neg (by omega), svErase_eq _ _ _ (by omega) (by omega)]
+  rfl
+
+example : (1 : Nat) < [1, 3, 5].length := by decide
+
+/-! ## range insert -/
+
+theorem ssInsertRange_eq (hst : StrictTotal lt) {cap : Nat} (ks : List α) : ∀ {l : List α}, Inv1 lt cap l →
+    ssInsertRange lt cap l ks = .ok (Spec.insertRange lt cap l ks) := by
+  induction ks with
+  | nil => intro l _; rfl
+  | cons k ks ih =>
+    intro l h
+    simp only [ssInsertRange, Spec.insertRange, ssInsert_eq hst h, ok_bind]
+    exact ih (spec_insert_inv hst h k)
+
+theorem fsInsertRange_eq (hst : StrictTotal lt) {cap : Nat} (ks : List α) : ∀ {l : List α}, Inv1 lt cap l →
+    fsInsertRange lt cap l ks = .ok (Spec.insertRange lt cap l ks) := by
+  induction ks with
+  | nil => intro l _; rfl
+  | cons k ks ih =>
+    intro l h
+    simp only [fsInsertRange, Spec.insertRange, fsEmplace_eq hst h, ok_bind]
+    exact ih (spec_insert_inv hst h k)
+
+theorem fiInsertRange_eq (hst : StrictTotal lt) {cap : Nat} (ks : List α) : ∀ {l : List α}, Inv1 lt cap l →
+    fiInsertRange lt cap l ks = .ok (Spec.insertRange lt cap l ks) := by
+  induction ks with
+  | nil => intro l _; rfl
+  | cons k ks ih =>
+    intro l h
+    simp only [fiInsertRange, Spec.insertRange, fiEmplace_eq hst h, ok_bind]
+    exact ih (spec_insert_inv hst h k)
+
+theorem spec_insertRange_inv (hst : StrictTotal lt) {cap : Nat} (ks : List α) : ∀ {l : List α}, Inv1 lt cap l →
+    Inv1 lt cap (Spec.insertRange lt cap l ks) := by
+  induction ks with
+  | nil => intro l h; exact h
+  | cons k ks ih => intro l h; exact ih (spec_insert_inv hst h k)
+
 end Tetl.C09.Props
